@@ -26,9 +26,9 @@ import (
 func init() {
 	Register(&Check{
 		Spec: core.Spec{ID: "C19", Level: "exploration",
-			Rule:        "case = an engine-written multi-block file (all three codecs across cases) x a batch of mutated inputs, each written to disk before it is used. Byte mutations: single/multi bit flips, byte bursts, truncation at every structural boundary +-1, extension, splices from another file, zeroed ranges, each targeted at row data, filter region, file filter section, metadata JSON, CRC, length, version, magic. Framing mutations: the footer JSON re-encoded with a consistent CRC and one or two of {region offset/size, block row-data offset/size, block filter offset/size, file filter section size, block UncompressedSize, block Rows} set to boundary values (-1, 0, 1, size+-1, 2^31+-1, 2^40, 2^62, int64 extremes) or PRNG values. Deep mutations (every 4th input): the file is taken apart with the independent parser and re-assembled with every checksum (row-data hash, section CRC, metadata CRC) and extent consistent but one part malformed inside: a row stream with an overrunning / short / truncated length prefix, a row that is not a JSON object, a zero-length row, a doubled stream; a block or file-level filter section with unknown flag bits, flags claiming absent filters, an arbitrary filter length, trailing bytes, a bloom header field (m, k, bitset length) at a boundary value, a garbage or cut payload; UncompressedSize or Rows disagreeing with the stream; stored bytes that are not a stream of the declared codec. Hash-less leg (per case, before the inputs): a MemoryMetaStore holds the file's metadata with the optional row-data hashes removed, the bytes live in a FileSystemDataStore (os.File handles), and the file is cut at every block boundary +-1, mid-block and at PRNG points: ReadDataBlockRowData over an os.File and a bytes.Reader must fail for every extent that runs past the end, blocks wholly inside must yield written rows, and queries must answer exactly or report an error. Per input: ReadFileMetadata, then ReadDataBlockRowData / ReadDataBlockBloomFilters / BlockRowScanner with the metadata it returned (or the original metadata), a query through MemoryMetaStore holding the original metadata over the mutated bytes, and a query through FileSystemDataStore scanning the mutated file. Oracle: no panic or fatal error; TotalAlloc delta per call <= 16 x (file size + original uncompressed sizes) + 8 MiB; with original metadata the result is the exact uncorrupted answer or Err != nil; every returned row is a row that was written, byte for byte (for deep mutations: whenever the mutation left the framed rows byte-identical to written rows). non-trivial = input that at least one call rejected with an error; distinct = distinct mutated contents",
+			Rule:        "case = an engine-written multi-block file (all three codecs across cases; every eighth case zstd blocks of repetitive rows that decode to several hundred KiB from about a KiB, far beyond 32x their stored size) x a batch of mutated inputs, each written to disk before it is used. Byte mutations: single/multi bit flips, byte bursts, truncation at every structural boundary +-1, extension, splices from another file, zeroed ranges, each targeted at row data, filter region, file filter section, metadata JSON, CRC, length, version, magic. Framing mutations: the footer JSON re-encoded with a consistent CRC and one or two of {region offset/size, block row-data offset/size, block filter offset/size, file filter section size, block UncompressedSize, block Rows} set to boundary values (-1, 0, 1, size+-1, 2^31+-1, 2^40, 2^62, int64 extremes) or PRNG values. Deep mutations (every 4th input): the file is taken apart with the independent parser and re-assembled with every checksum (row-data hash, section CRC, metadata CRC) and extent consistent but one part malformed inside: a row stream with an overrunning / short / truncated length prefix, a row that is not a JSON object, a zero-length row, a doubled stream; a block or file-level filter section with unknown flag bits, flags claiming absent filters, an arbitrary filter length, trailing bytes, a bloom header field (m, k, bitset length) at a boundary value, a garbage or cut payload; UncompressedSize or Rows disagreeing with the stream; stored bytes that are not a stream of the declared codec. Hash-less leg (per case, before the inputs): a MemoryMetaStore holds the file's metadata with the optional row-data hashes removed, the bytes live in a FileSystemDataStore (os.File handles), and the file is cut at every block boundary +-1, mid-block and at PRNG points: ReadDataBlockRowData over an os.File and a bytes.Reader must fail for every extent that runs past the end, blocks wholly inside must yield written rows, and queries must answer exactly or report an error. Per input: ReadFileMetadata, then ReadDataBlockRowData / ReadDataBlockBloomFilters / BlockRowScanner with the metadata it returned (or the original metadata), a query through MemoryMetaStore holding the original metadata over the mutated bytes, and a query through FileSystemDataStore scanning the mutated file. Oracle: no panic or fatal error; TotalAlloc delta per call <= 16 x (file size + the bytes the blocks really decode to) + 8 MiB (+ 8 MiB per block for zstd, whose decoders cost megabytes each on intact files); with original metadata the result is the exact uncorrupted answer or Err != nil; every returned row is a row that was written, byte for byte (for deep mutations: whenever the mutation left the framed rows byte-identical to written rows). non-trivial = input that at least one call rejected with an error; distinct = distinct mutated contents",
 			Assumptions: []string{"helpers are called with metadata that ReadFileMetadata returned for the mutated file, or with the original metadata over mutated bytes (a MetaStore that hands out unvalidated row-data extents is outside the property)"},
-			Floors:      map[string]int64{"inputs": 3000, "inputs_rejected": 1500, "framing_inputs": 800, "deep_inputs": 800, "queries_memmeta": 3000, "queries_fsscan": 500, "hashless_truncations": 300, "queries_hashless": 900}},
+			Floors:      map[string]int64{"inputs": 3000, "inputs_rejected": 1500, "framing_inputs": 800, "deep_inputs": 800, "queries_memmeta": 3000, "queries_fsscan": 500, "hashless_truncations": 300, "cases_with_highly_compressible_blocks": 3, "queries_hashless": 900}},
 		Cases:        func(t string) int { return nQueries(t, 32, 1200) },
 		ChildTimeout: func(t string) time.Duration { return 90 * time.Minute },
 		Run:          runC19,
@@ -70,14 +70,27 @@ func runC19(rc *RunCtx, i int) {
 	if bigSections {
 		spec.FPR = 1e-9
 	}
+	// every eighth case: zstd blocks of very repetitive rows, which decode to far more than 32x
+	// their stored size: the only blocks for which a reader may have to go beyond any bound it
+	// derives from the bytes present, i.e. where a lying UncompressedSize has the most room
+	compressibleBig := i%8 == 5
+	if compressibleBig {
+		spec.Compression, spec.ZstdLevel = "zstd", 1
+		rc.Res.Count("cases_with_highly_compressible_blocks", 1)
+	}
 	if _, err := w.AddEngine(spec); err != nil {
 		rc.Violate(i, "scenario-failed", "", err.Error(), nil)
 		return
 	}
 	rr := r.Split("rows")
+	padWord := core.Pick(rr, v.Words)
 	mk := func(n int) []*world.RowRec {
 		var recs []*world.RowRec
 		for k := 0; k < n; k++ {
+			if compressibleBig {
+				recs = append(recs, w.NewRowWith(rr, 0, func(row map[string]any) { row["pad"] = strings.Repeat(padWord+" ", 2500) }))
+				continue
+			}
 			recs = append(recs, w.NewRow(rr, 0))
 		}
 		return recs
@@ -85,6 +98,9 @@ func runC19(rc *RunCtx, i int) {
 	firstRows := r.Range(6, 25)
 	if bigSections {
 		firstRows = r.Range(60, 120)
+	}
+	if compressibleBig {
+		firstRows = r.Range(40, 70)
 	}
 	if err := w.IngestSync(0, [][]*world.RowRec{mk(firstRows)}); err != nil {
 		rc.Violate(i, "scenario-failed", "", err.Error(), nil)
@@ -129,6 +145,17 @@ func runC19(rc *RunCtx, i int) {
 		}
 	}
 	base.bound = uint64(16*(len(rawA)+unc) + 8<<20)
+	if spec.Compression == "zstd" {
+		// a zstd decoder costs megabytes per decoded block whatever the block holds (measured
+		// on intact files: 5.6 MB for one 140 KB block, 6-12 MB for a clean query over three),
+		// so the allowance grows with the number of blocks a call may decode. Hostile sizes are
+		// orders of magnitude beyond it (2^31 and up).
+		nb := len(mdA.DataBlocks)
+		if mdD, _, derr := bs.ReadFileMetadata(bytes.NewReader(donor)); derr == nil {
+			nb += len(mdD.DataBlocks)
+		}
+		base.bound += uint64(nb) * (8 << 20)
+	}
 	e := w.Eng[0]
 	queries := []*bs.Query{{}, bs.NewQuery().Field("_vid").Build(), bs.NewQuery().Token(core.Pick(r, v.Words)).Build()}
 	baseline := make([]map[string]int, len(queries))
@@ -183,6 +210,11 @@ func runC19(rc *RunCtx, i int) {
 				rc.Res.Count("deep_inputs", 1)
 			}
 		}
+		inputBound := base.bound
+		if deep && lastAssembledPlain > unc {
+			// the re-assembled file really decodes to more than the base file did
+			inputBound += uint64(16 * (lastAssembledPlain - unc))
+		}
 		if deep {
 		} else if framing {
 			mut, what = framingMutation(mr, base)
@@ -218,8 +250,8 @@ func runC19(rc *RunCtx, i int) {
 				return false
 			}
 			rc.Res.Max("max.alloc_bytes_per_call", int64(alloc))
-			if alloc > base.bound {
-				rc.Violate(i, "allocation-beyond-file-size", "", fmt.Sprintf("%s allocated %d bytes for a %d-byte file (bound %d)", name, alloc, len(mut), base.bound), wit(nil))
+			if alloc > inputBound {
+				rc.Violate(i, "allocation-beyond-file-size", "", fmt.Sprintf("%s allocated %d bytes for a %d-byte file (bound %d)", name, alloc, len(mut), inputBound), wit(nil))
 				return false
 			}
 			return true
